@@ -267,3 +267,29 @@ Theorem C11_own_lists_example :
   Slices.sread (fst Slices.ok_y) (snd Slices.ex_base) = [1; 2; 3].
 Proof. exact Slices.own_lists_example. Qed.
 Print Assumptions C11_own_lists_example.
+
+(* (14) A whopper may continue more than once (a retry): theorems (4)-(6) hold for bodies that call continue-whopper
+   0, 1 or 2 times ([conts]; run_wrap runs the rest once per call, the value is that of the last call) - every pass runs
+   the whoppers of the components again, because WhopLoc.Continue gives the next whopper a location of its own and does
+   not move the caller's.  Example: leaf <- mid <- base, the leaf's whopper continues twice. *)
+Theorem C11_retry_example :
+  wf h_retry = true /\
+  send (final h_retry) 3 (MUser 1) None =
+    ([Ev 33; Ev 23; Ev 13; Ev 11; Ev 10; EvEnd 13; EvEnd 23; Ev 23; Ev 13; Ev 11; Ev 10; EvEnd 13; EvEnd 23; EvEnd 33], RVal 10) /\
+  s_send (s_var (decls h_retry) 3) None (s_table (spec h_retry) 3 (MUser 1)) = send (final h_retry) 3 (MUser 1) None.
+Proof. exact retry_history. Qed.
+Print Assumptions C11_retry_example.
+(* refuted for ONE location object shared by the whole chain ([continue_shared]: the location is moved to the next whopper
+   and handed on): back in the outer whopper it points at the innermost whopper, the second pass skips mid's and base's *)
+Theorem C11_shared_location_retry_refuted :
+  fst (match wrap_from retry_combos 0 with
+       | Some (_, BUser id CTwice) =>
+           let '(o1, l1) := continue_shared 9 retry_combos (inner_call true false (fun _ => None) None retry_combos) 0 in
+           let '(o2, l2) := continue_shared 9 retry_combos (inner_call true false (fun _ => None) None retry_combos) l1 in
+           ((Ev id :: fst o1 ++ fst o2 ++ [EvEnd id], snd o2), l2)
+       | _ => (([], ROther), 0)
+       end) = ([Ev 33; Ev 23; Ev 13; Ev 11; Ev 10; EvEnd 13; EvEnd 23; Ev 11; Ev 10; EvEnd 33], RVal 10) /\
+  method_call retry_combos (inner_call true false (fun _ => None) None retry_combos) =
+    ([Ev 33; Ev 23; Ev 13; Ev 11; Ev 10; EvEnd 13; EvEnd 23; Ev 23; Ev 13; Ev 11; Ev 10; EvEnd 13; EvEnd 23; EvEnd 33], RVal 10).
+Proof. exact shared_location_skips_on_retry. Qed.
+Print Assumptions C11_shared_location_retry_refuted.
